@@ -81,19 +81,24 @@ def run_case(job, ret_files=False):
         with open(box.path("work", "s.yaml"), "w") as f:
             f.write(f"input:\n  auto_exclude_directories_without_cmake: {str(auto).lower()}\n"
                     f"  follow_symlinks: {str(follow).lower()}\n")
-            if rstopts:
-                f.write("rst:\n" + "".join(f"  {k}: {v if not isinstance(v, bool) else str(v).lower()}\n" for k, v in rstopts.items()))
+            if [k for k in rstopts if k != "input_via_link"]:
+                f.write("rst:\n" + "".join(f"  {k}: {v if not isinstance(v, bool) else str(v).lower()}\n" for k, v in rstopts.items() if k != "input_via_link"))
         argv = ["-s", "s.yaml", "-o", "out"] + (["-r"] if recursive else []) + (["-p", prefix] if prefix else [])
         for p in rp:
             argv += ["-e", p]
-        r = box.run(argv + ["in"])
+        inp = "in"
+        if rstopts.pop("input_via_link", None):
+            # the input directory is given through a symbolic link with another name: it is named as it was given
+            os.symlink("in", box.path("work", "alias-1.4"))
+            inp = "alias-1.4"
+        r = box.run(argv + [inp])
         if r["status"] != 0:
             msgs.append(f"error: run failed: {r['exc'] or r['stdout'][-200:]}")
             files = {}
         else:
             files = box.files("work/out") if os.path.isdir(box.path("work", "out")) else {}
             if files:
-                msgs += dirmodel.closure_messages(files, recursive, prefix or "in",
+                msgs += dirmodel.closure_messages(files, recursive, prefix or inp,
                                                   sep=str(rstopts.get("module_path_separator", ".")).strip("'"))
             nidx = sum(1 for k in files if k.endswith("index.rst"))
             nt = nidx >= 2 or len(files) >= 4
@@ -207,6 +212,14 @@ def run(ctx):
             for ro in ropts:
                 for recursive, auto in itertools.product((True, False), (True, False)):
                     jobs.append((parents, a, recursive, auto, None if len(jobs) % 2 else "P", [], None, False, ro))
+    # prefixes that contain path separators or dots; the input given through a symbolic link of another name
+    for parents in shapes:
+        a = ["one"] * len(parents)
+        for pre in ("Org/Proj", "a//b", "trail/", "./rel", "v1.2", "Org.Proj"):
+            for ro in ((), (("module_path_separator", "'/'"),)):
+                jobs.append((parents, a, True, True, pre, [], None, False, ro))
+        for recursive in (True, False):
+            jobs.append((parents, a, recursive, True, None, [], None, False, (("input_via_link", True),)))
     ctx.cov["bounds"] = {"tree_shapes": len(shapes), "runs": len(jobs)}
     ctx.sweep(run_case, jobs, space="trees x patterns x configurations", selftest=5)
     hjobs = []
